@@ -2,8 +2,8 @@
 from props import compile_common as cc
 
 LEVEL = 'proof'
-MODULES = ['Pysmi.Props.C07']
-LAKE_TARGETS = ['Pysmi.Props.C07']
+MODULES = ['Pysmi.Props.C07', 'Pysmi.Props.C07Accounted']
+LAKE_TARGETS = ['Pysmi.Props.C07', 'Pysmi.Props.C07Accounted']
 THEOREMS = [
     'Pysmi.Compile.C07_total',
     'Pysmi.Compile.C07_one_status',
@@ -11,9 +11,13 @@ THEOREMS = [
     'Pysmi.Compile.C07_put_once',
     'Pysmi.Compile.C07_written_iff_reported_partial',
     'Pysmi.Compile.inv_beforeGate',
+    'Pysmi.Compile.C07_accounted_from',
+    'Pysmi.Compile.C07_accounted',
+    'Pysmi.Compile.gate_drained',
+    'Pysmi.Compile.accCfg_aligned',
 ]
 TECHNIQUE = 'Lean 4 theorems about a model of MibCompiler.compile over abstract component oracles; differential correspondence (status map + full call trace) against the real compile() driven by scripted doubles; oracle search'
-LEVEL_TEXT = ("Proved in Lean for every configuration of component outcomes, import graph, option set (unbounded): compile returns whenever discovery terminates (C08) - every package error is consumed; distinct keys / one status each; failed entries carry the causing error; each module handed to the writer at most once with exactly its own generated/borrowed text; status compiled/borrowed iff the hand-over succeeded for modules with no stale earlier status (partial: the residue - a name that failed and was also obtained through another file - is a recorded finding). 'Every module of the import closure has a status' is not proved in Lean; it is decided by the oracle on every aligned scenario. The model is tied to compile() by differential runs comparing the full status map and call trace over scripted doubles.")
+LEVEL_TEXT = ("Proved in Lean for every configuration of component outcomes, import graph, option set (unbounded): compile returns whenever discovery terminates (C08) - every package error is consumed; distinct keys / one status each; failed entries carry the causing error; each module handed to the writer at most once with exactly its own generated/borrowed text; status compiled/borrowed iff the hand-over succeeded for modules with no stale earlier status (partial: the residue - a name that failed and was also obtained through another file - is a recorded finding). Every requested name and every name in the IMPORTS of every parsed module has a status in the result (C07_accounted: the pipeline invariant Acc is kept by every step of every phase, the working dictionaries are drained, and C08_closure settles the closure), under the hypothesis that every file holds the module it is named after; without that hypothesis C07_accounted_from still carries every name discovery settled to the result, and the residue (a requested alias that only names a file) is the recorded multi-module-file finding. The model is tied to compile() by differential runs comparing the full status map and call trace over scripted doubles.")
 LEVEL_NOTE = ('Trusted: Lean kernel + standard axioms; the hand-written model of compile() (Model/Compile.lean), tied to '
               '/repo by the correspondence on every run; component doubles stand for readers/parser/generators/searchers/'
               'borrowers/writer (their real behaviour is the subject of other properties).')
@@ -23,13 +27,227 @@ ASSUMPTIONS = [
 ]
 
 
+STATUSES = ('compiled', 'untouched', 'failed', 'unprocessed', 'missing', 'borrowed')
+_WORD = None
+
+
+def inject(rng, g, texts):
+    """one defect into a generated module set: returns (kind, victim module, new texts).  Lexical, syntactic and
+    semantic defects: a declaration dropped or duplicated, a name spelled differently at one of its occurrences (the
+    definition or a reference: parent OIDs, SYNTAX types, OBJECTS / INDEX / AUGMENTS / DEFVAL / compliance names,
+    IMPORTS symbols), an import removed, a whole module missing, a stray character, a truncated file."""
+    import re
+    global _WORD
+    from gen import mibgen
+    if _WORD is None:
+        _WORD = re.compile(r"[A-Za-z][A-Za-z0-9-]*")
+    out = dict(texts)
+    if rng.random() < 0.5:
+        # targeted: pick one reference of one kind (each kind equally likely) and break it at the definition, at the
+        # place of use, in the IMPORTS clause, or by taking the providing module away
+        refs = {}
+        for mn, m in g.modules.items():
+            def home(n):
+                for frm, syms in m['imports'].items():
+                    if n in syms:
+                        return frm
+                return mn
+            for d in m['decls']:
+                for p in d.get('oidparts') or []:
+                    if p[0] == 'ref':
+                        refs.setdefault('parent', []).append((mn, p[1], home(p[1])))
+                sx = d.get('syntax')
+                if isinstance(sx, dict) and sx.get('user'):
+                    refs.setdefault('type', []).append((mn, sx['base'], home(sx['base'])))
+                dv = d.get('defval')
+                if dv and dv[0] == 'oid':
+                    refs.setdefault('defval-oid', []).append((mn, dv[1], home(dv[1])))
+                for o in d.get('objects') or []:
+                    refs.setdefault('objects', []).append((mn, o['name'], home(o['name'])))
+                for o in d.get('index') or []:
+                    refs.setdefault('index', []).append((mn, o['name'], home(o['name'])))
+                if d.get('augments'):
+                    refs.setdefault('augments', []).append((mn, d['augments'], home(d['augments'])))
+                for o in (d.get('mandatory') or []) + (d.get('conditional') or []):
+                    refs.setdefault('group', []).append((mn, o['name'], home(o['name'])))
+        refs = {k: [r for r in v if r[2] in g.modules] for k, v in refs.items()}
+        refs = {k: v for k, v in refs.items() if v}
+        if refs:
+            rk = rng.choice(sorted(refs))
+            foreign = [r for r in refs[rk] if r[0] != r[2]]
+            user, name, prov = rng.choice(foreign if foreign and rng.random() < 0.7 else refs[rk])
+            how = rng.choice(['definition', 'use', 'import', 'module'] if prov != user else ['definition', 'use'])
+            new = ('zz' + name) if name[0].islower() else ('Zz' + name)
+            if how == 'definition':
+                t2, k = re.subn(r'(?m)^%s (?=[A-Z:])' % re.escape(name), new + ' ', texts[prov], count=1)
+                if k:
+                    out[prov] = t2
+                    return 'ref-%s-undefined' % rk, prov, out
+            elif how == 'use':
+                segs = texts[user].split('"')
+                spots = [(si, mo) for si in range(0, len(segs), 2)
+                         for mo in re.finditer(r'(?<![A-Za-z0-9-])%s(?![A-Za-z0-9-])' % re.escape(name), segs[si])
+                         if not (mo.start() == 0 or segs[si][mo.start() - 1] == '\n')]
+                head = texts[user].find(';')
+                spots = [x for x in spots if not (x[0] == 0 and x[1].start() < head)]
+                if spots:
+                    si, mo = rng.choice(spots)
+                    segs[si] = segs[si][:mo.start()] + new + segs[si][mo.end():]
+                    out[user] = '"'.join(segs)
+                    return 'ref-%s-misspelled' % rk, user, out
+            elif how == 'import':
+                m = g.modules[user]
+                imports = {f: [x for x in syms if not (f == prov and x == name)] for f, syms in m['imports'].items()}
+                imports = {f: v for f, v in imports.items() if v}
+                out[user] = mibgen.print_module(dict(m, imports=imports), __import__('random').Random(0))
+                return 'ref-%s-not-imported' % rk, user, out
+            else:
+                del out[prov]
+                return 'ref-%s-module-missing' % rk, prov, out
+    victim = rng.choice(sorted(texts))
+    t = texts[victim]
+    kind = rng.choice(['respell', 'respell', 'respell', 'drop-decl', 'dup-decl', 'drop-import', 'missing-module', 'garbage', 'truncate', 'respell-import',
+                       'defval-brackets', 'defval-swap'])
+    segs = t.split('"')
+
+    def words():
+        res = []
+        for si in range(0, len(segs), 2):           # outside quoted texts
+            for mo in _WORD.finditer(segs[si]):
+                w = mo.group(0)
+                if w not in mibgen.RESERVED and w not in ('DEFINITIONS', 'BEGIN', 'END', 'IMPORTS', 'FROM', 'OBJECT', 'IDENTIFIER', 'current',
+                                                          'deprecated', 'obsolete') and not w.endswith('-MIB'):
+                    res.append((si, mo.start(), mo.end(), w))
+        return res
+    if kind in ('respell', 'respell-import'):
+        ws = words()
+        if kind == 'respell-import':
+            head = t.find(';')
+            ws = [w for w in ws if w[0] == 0 and w[2] <= head] or ws
+        if not ws:
+            return 'none', victim, out
+        si, a, b, w = rng.choice(ws)
+        new = ('zz' + w if w[0].islower() else 'Zz' + w)
+        segs[si] = segs[si][:a] + new + segs[si][b:]
+        out[victim] = '"'.join(segs)
+    elif kind in ('drop-decl', 'dup-decl'):
+        m = g.modules[victim]
+        if not m['decls']:
+            return 'none', victim, out
+        m2 = dict(m, decls=list(m['decls']))
+        k = rng.randrange(len(m2['decls']))
+        if kind == 'drop-decl':
+            del m2['decls'][k]
+        else:
+            m2['decls'].insert(rng.randrange(len(m2['decls']) + 1), m2['decls'][k])
+        out[victim] = mibgen.print_module(m2, __import__('random').Random(0))
+    elif kind == 'drop-import':
+        m = g.modules[victim]
+        if not m['imports']:
+            return 'none', victim, out
+        frm = rng.choice(sorted(m['imports']))
+        syms = list(m['imports'][frm])
+        syms.pop(rng.randrange(len(syms)))
+        imports = dict(m['imports'])
+        if syms:
+            imports[frm] = syms
+        else:
+            del imports[frm]
+        out[victim] = mibgen.print_module(dict(m, imports=imports), __import__('random').Random(0))
+    elif kind == 'missing-module':
+        del out[victim]
+    elif kind in ('defval-brackets', 'defval-swap'):
+        # a default that does not fit the object: wrapped in a second pair of braces, or taken from another object
+        spots = [(si, mo) for si in range(0, len(segs), 2) for mo in re.finditer(r"DEFVAL \{ ([^{}]*) \}", segs[si])]
+        spots = [(si, mo) for si, mo in spots if mo.group(1).strip()]
+        if not spots:
+            return 'none', victim, out
+        si, mo = rng.choice(spots)
+        if kind == 'defval-brackets':
+            new = 'DEFVAL { { %s } }' % mo.group(1).strip().replace(' ', ', ')
+        else:
+            new = 'DEFVAL { %s }' % rng.choice(['zeroDotZero', 'unknownLabel', '-1', "'FFFF'H", "'1'B", '{ up, down }', '{ }', '99999999999', 'true'])
+        segs[si] = segs[si][:mo.start()] + new + segs[si][mo.end():]
+        out[victim] = '"'.join(segs)
+    elif kind == 'garbage':
+        k = rng.randrange(len(t) + 1)
+        out[victim] = t[:k] + rng.choice(['\x00', '$', '?', '@', '\\', '~', '%', '&', '"', "'", '99999999999999999999999', '{', '}', ')', ';']) + t[k:]
+    else:
+        out[victim] = t[:rng.randrange(len(t))]
+    return kind, victim, out
+
+
+def defect_stream(ctx):
+    """the real pipeline on generated module sets with one injected defect: compile() must return, every requested module
+    has one of the six statuses, written = reported compiled, and (errors ignored) modules that do not depend on the
+    defective one are compiled"""
+    import random
+    from gen import mibgen
+    from impl import pipeline
+    res = ctx.res
+    n = 500 if ctx.tier == 'quick' else 6000
+    for i in range(n):
+        seed = ctx.seed * 100000 + 70000 + i
+        rng = random.Random(seed)
+        g = mibgen.SetGen(rng, n_modules=rng.choice([2, 3, 3]))
+        g.exotic_defvals = True
+        g.build()
+        texts = {name: mibgen.print_module(m, random.Random(seed)) for name, m in g.modules.items()}
+        kind, victim, bad = inject(rng, g, texts)
+        ignore = (i % 3 != 0)
+        opts = {'ignoreErrors': ignore, 'genTexts': i % 2 == 0}
+        inp = {'texts': bad, 'requested': sorted(texts), 'options': opts, 'defect': kind, 'victim': victim, 'no_raise': True}
+        res.case(('defect', kind, tuple(sorted(bad.items())), ignore), kind != 'none')
+        res.count('defect:' + kind)
+        try:
+            st, out, comp = pipeline.compile_set(bad, requested=sorted(texts), **opts)
+        except BaseException as e:
+            if isinstance(e, (KeyboardInterrupt, SystemExit)):
+                raise
+            res.oracle_failures.append({'key': 'raises', 'what': 'compile() raised %s: %s for a module set with a %s defect in %s' % (
+                type(e).__name__, str(e)[:120], kind, victim), 'input': inp})
+            continue
+        st = {k: str(v) for k, v in st.items()}
+        for name in texts:
+            if st.get(name) not in STATUSES:
+                res.oracle_failures.append({'key': 'accounted', 'what': 'requested module %s has status %r (defect %s in %s)' % (name, st.get(name), kind, victim),
+                                            'input': inp})
+        for name in out:
+            if st.get(name) not in ('compiled', 'borrowed'):
+                res.oracle_failures.append({'key': 'written-iff-reported', 'what': '%s written but reported %s' % (name, st.get(name)), 'input': inp})
+        for name, v in st.items():
+            res.count('defect-status:' + v)
+            if v == 'compiled' and name not in out:
+                res.oracle_failures.append({'key': 'written-iff-reported', 'what': '%s reported compiled but not written' % name, 'input': inp})
+        # modules whose import closure does not reach the defective module
+        deps = {name: set(f for f in m['imports'] if f in g.modules) for name, m in g.modules.items()}
+        reach = {}
+        for name in deps:
+            seen, todo = set(), [name]
+            while todo:
+                x = todo.pop()
+                for y in deps.get(x, ()):
+                    if y not in seen:
+                        seen.add(y)
+                        todo.append(y)
+            reach[name] = seen
+        if ignore and kind != 'none':
+            for name in texts:
+                if name != victim and victim not in reach[name] and st.get(name) != 'compiled':
+                    res.oracle_failures.append({'key': 'bad-mib-drops-another', 'what': '%s does not depend on %s (defect: %s) but is reported %s' % (
+                        name, victim, kind, st.get(name)), 'input': dict(inp, independent=name)})
+
+
 def run(ctx):
     n = 1200 if ctx.tier == 'quick' else 12000
     cc.run_stream(ctx, 'C07', n, 600 if ctx.tier == 'quick' else 6000)
+    defect_stream(ctx)
 
 
 def search(ctx):
     cc.run_stream(ctx, 'C07', 6000, 3000)
+    ctx.tier = 'thorough'
+    defect_stream(ctx)
 
 
 def replay(payload):
